@@ -248,8 +248,10 @@ fn tables(run: &mut Run) {
     }
 }
 
-/// Fixed input for the suspected SymmetricHashJoinExec defect (notes/C05.md): NULL = NULL inner
-/// join, build side arriving as two batches [5] then [NULL], probe side [NULL].
+/// Directed case (runs first): the exact input on which SymmetricHashJoinExec lost NULL = NULL
+/// matches before /repo fix b4ab834 (stale build-side hash buffer, notes/C05.md): NULL = NULL inner
+/// join, each side arriving as two batches, the NULL key in the second one; and the same rows
+/// in one batch per side.  Compared strictly with the Lean spec and with the expected row.
 fn shj_stale_hash_probe(run: &mut Run, rt: &tokio::runtime::Runtime) {
     let ls = schema(["a", "b", "x"]);
     let rs = schema(["c", "d", "y"]);
@@ -272,9 +274,12 @@ fn shj_stale_hash_probe(run: &mut Run, rt: &tokio::runtime::Runtime) {
         run.count(&format!("shj_probe_{name}_{}", if got == "N,0,1,N,7,7" { "correct" } else { "wrong" }));
         run.oracle(
             got == "N,0,1,N,7,7",
-            &format!("SymmetricHashJoinExec[null_equal_null_keys] fixed probe {name}: left batches {lparts:?} right {r:?} Inner NullEqualsNull on a=c"),
+            &format!("SymmetricHashJoinExec directed case {name}: left batches {lparts:?} right {r:?} Inner NullEqualsNull on a=c"),
             &format!("expected `N,0,1,N,7,7`, got `{got}`"),
         );
+        let lrows: Vec<Row> = lparts.iter().flatten().cloned().collect();
+        let rbatches: Vec<String> = r.iter().map(|b| rows_sexp(b)).collect();
+        run.case("join.symmetric_hash", &format!("(Inner t ((0 0)) none 3 3 {} ({}))", rows_sexp(&lrows), rbatches.join(" ")), &got, true);
     }
 }
 
@@ -282,8 +287,8 @@ pub fn run(run: &mut Run, args: &Args) {
     hutil::quiet_panics();
     let mut rng = Rng::new(args.seed);
     let rt = tokio::runtime::Builder::new_multi_thread().worker_threads(2).enable_all().build().unwrap();
-    tables(run);
     shj_stale_hash_probe(run, &rt);
+    tables(run);
     let ls = schema(["a", "b", "x"]);
     let rs = schema(["c", "d", "y"]);
     let n_inputs = run.budget(160, 5000);
@@ -410,12 +415,9 @@ pub fn run(run: &mut Run, args: &Args) {
                 ) {
                     Ok(plan) => {
                         let got = exec(&rt, Arc::new(plan), ctx(bsz, phj));
-                        // NULL = NULL joins with NULL keys on both sides are tagged: see notes/C05.md
-                        let null_key = |rows: &[Row]| rows.iter().any(|r| r[..inp.nkeys].iter().any(|v| v.is_none()));
-                        let tag = if inp.ne && null_key(&inp.l) && null_key(&inp.r) { "join.symmetric_hash.null_equal_null_keys" } else { "join.symmetric_hash" };
-                        run.case(tag, &req_spec, &got.clone().unwrap_or_else(|e| e), nt);
+                        run.case("join.symmetric_hash", &req_spec, &got.clone().unwrap_or_else(|e| e), nt);
                         run.count("op_symmetric_hash");
-                        check(run, if tag.ends_with("null_keys") { "SymmetricHashJoinExec[null_equal_null_keys]" } else { "SymmetricHashJoinExec" }, &got);
+                        check(run, "SymmetricHashJoinExec", &got);
                     }
                     Err(_) => run.count("op_symmetric_hash_rejected"),
                 }
